@@ -1721,6 +1721,7 @@ class Circuit(Unitary, StateVectorMap, Collection[Operation]):
 
             ValueError: If `point.qudit` is not in `op.location`
         """
+        point = self.normalize_point(point)
         if len(self[point].location.intersection(op.location)) == 0:
             raise ValueError("Point's qudit is not in operation's location.")
 
@@ -1787,6 +1788,7 @@ class Circuit(Unitary, StateVectorMap, Collection[Operation]):
         if len(points) != len(ops):
             raise ValueError('Points and Ops have different lengths.')
 
+        points = [self.normalize_point(point) for point in points]
         points_and_ops = sorted(zip(points, ops), key=lambda x: x[0][0])
         num_cycles = self.num_cycles
 
@@ -1813,6 +1815,7 @@ class Circuit(Unitary, StateVectorMap, Collection[Operation]):
         move: bool = False,
     ) -> None:
         """Replace the operation at 'point' with `circuit`."""
+        point = self.normalize_point(point)
         op = self.pop(point)
 
         if circuit.num_qudits != op.num_qudits:
